@@ -61,7 +61,10 @@ pub struct HostCase {
     pub bufs: Vec<u32>,
 }
 
-pub struct Hostile;
+pub struct Hostile {
+    /// false: C05 monitors (panic / abort / budget / heap); true: C04's CRC invariant on every entry of every damaged image
+    pub crc: bool,
+}
 
 pub fn seed_image(s: &SeedImg) -> Vec<u8> {
     match s {
@@ -293,10 +296,26 @@ fn touch(f: &mut zip::read::ZipFile<'_>, bufs: &[u32], cap: u64) -> u64 {
     let _ = lm.to_time();
     let _ = (lm.year(), lm.month(), lm.day(), lm.hour(), lm.minute(), lm.second(), lm.datepart(), lm.timepart());
     let _ = (f.is_dir(), f.is_file(), f.unix_mode(), f.crc32(), f.extra_data().len(), f.data_start(), f.header_start(), f.central_header_start());
+    let declared = f.crc32();
+    let exempt = f.extra_data().windows(2).any(|w| w == [0x01, 0x99]);
     let (data, err, _) = read_all(f, bufs, cap);
     h = mix(h, data.len() as u64);
     h = mix(h, err.is_some() as u64);
+    // C04: a read that reached EOF without error returned bytes whose CRC is the declared one
+    // (entries carrying an AES extra record are exempt here: AE-2 has no CRC; C16 covers them)
+    if err.is_none() && (data.len() as u64) <= cap && !exempt && crate::content::crc32(&data) != declared {
+        CRC_BAD.with(|c| {
+            let mut c = c.borrow_mut();
+            if c.is_none() {
+                *c = Some(format!("entry {:?}: read to EOF succeeded with {} bytes whose CRC {:#x} != declared {:#x}", f.name().chars().take(30).collect::<String>(), data.len(), crate::content::crc32(&data), declared));
+            }
+        });
+    }
     h
+}
+
+thread_local! {
+    pub static CRC_BAD: std::cell::RefCell<Option<String>> = std::cell::RefCell::new(None);
 }
 
 /// Drive the whole reading surface over one image. Returns (signature, parser got past the end record).
@@ -335,7 +354,9 @@ pub fn drive(img: &[u8], pw: &[u8], bufs: &[u32], ctx: &mut Ctx) -> Result<(u64,
                 drop(f);
             }
             if let Ok(mut f) = ar.by_index_raw(i) {
-                sig = mix(sig, touch(&mut f, bufs, cap));
+                // undecoded bytes: no CRC relation
+                let (d, e, _) = read_all(&mut f, bufs, cap);
+                sig = mix(sig, mix(d.len() as u64, e.is_some() as u64));
             }
             match ar.by_index_decrypt(i, pw) {
                 Ok(Ok(mut f)) => {
@@ -431,11 +452,21 @@ pub fn drive(img: &[u8], pw: &[u8], bufs: &[u32], ctx: &mut Ctx) -> Result<(u64,
 
 impl Scenario for Hostile {
     fn name(&self) -> &'static str {
-        "hostile"
+        if self.crc {
+            "hostile_crc"
+        } else {
+            "hostile"
+        }
     }
     fn total(&self, tier: Tier) -> u64 {
         match tier {
-            Tier::Quick => 1_000,
+            Tier::Quick => {
+                if self.crc {
+                    600
+                } else {
+                    1_000
+                }
+            }
             Tier::Thorough => 40_000,
         }
     }
@@ -446,7 +477,7 @@ impl Scenario for Hostile {
         Some("enumerated per seed image: all prefixes; all 255 substitutions at every structural byte (headers, extra fields, end records, first 20 data bytes); all header fields x boundary values")
     }
     fn gen(&self, seed: u64, idx: u64, _tier: Tier) -> Value {
-        let s = mix(mix(seed, fnv(b"hostile")), idx);
+        let s = mix(mix(seed, fnv(self.name().as_bytes())), idx);
         let mut r = Rng::derive(s, "workload");
         let mut rs = Rng::derive(s, "swarm");
         let mk_seed = |r: &mut Rng, small: bool| -> SeedImg {
@@ -519,7 +550,9 @@ impl Scenario for Hostile {
         };
         let img0 = seed_image(&c.seed);
         let n0 = img0.len() as u64;
+        let crc_mode = self.crc;
         let mut one = |img: &[u8], what: String, ctx: &mut Ctx| -> Result<(), Verdict> {
+            let _ = CRC_BAD.with(|c| c.borrow_mut().take());
             ctx.sub_evals += 1;
             ctx.tick();
             match guard(|| {
@@ -528,6 +561,10 @@ impl Scenario for Hostile {
                 (r, tmp)
             }) {
                 Ok((Ok((sig, past)), tmp)) => {
+                    let bad = CRC_BAD.with(|c| c.borrow_mut().take());
+                    if let (true, Some(b)) = (crc_mode, bad) {
+                        return Err(viol("C04/completed-read-with-wrong-crc/hostile", format!("{b} || {what}")));
+                    }
                     ctx.io_events += tmp.io_events;
                     for (k, v) in tmp.probes {
                         ctx.probe_n(&k, v);
@@ -537,9 +574,21 @@ impl Scenario for Hostile {
                     }
                     Ok(())
                 }
-                Ok((Err(Verdict::Violation { class, detail }), _)) => Err(viol(class, format!("{detail} || {what}"))),
+                Ok((Err(Verdict::Violation { class, detail }), _)) => {
+                    if crc_mode {
+                        Ok(())
+                    } else {
+                        Err(viol(class, format!("{detail} || {what}")))
+                    }
+                }
                 Ok((Err(v), _)) => Err(v),
-                Err(Verdict::Violation { class, detail }) => Err(viol(format!("C05/{class}"), format!("{detail} || {what}"))),
+                Err(Verdict::Violation { class, detail }) => {
+                    if crc_mode {
+                        Ok(()) // a panic is C05's business
+                    } else {
+                        Err(viol(format!("C05/{class}"), format!("{detail} || {what}")))
+                    }
+                }
                 Err(v) => Err(v),
             }
         };
